@@ -58,6 +58,21 @@ pub struct BuildingNeeds {
 impl BuildingNeeds {
     /// Añade elemento de demanda del edificio, sumando los valores si ya se han definido para ese servicio
     pub fn add(&mut self, need: Needs) -> Result<(), EpbdError> {
+        // All the definitions of the needs of a service must have the same number of steps
+        let current = match need.service {
+            Service::ACS => &self.ACS,
+            Service::CAL => &self.CAL,
+            Service::REF => &self.REF,
+            _ => &None,
+        };
+        if let Some(nd) = current {
+            if nd.len() != need.values.len() {
+                return Err(EpbdError::WrongInput(format!(
+                    "Demanda de edificio con distinto número de pasos de cálculo para el servicio {}",
+                    need.service
+                )));
+            }
+        }
         let update = |cur_values: &Option<Vec<f32>>, new_values| {
             if let Some(nd) = cur_values {
                 Some(vecvecsum(nd, new_values))
